@@ -1,8 +1,180 @@
 import SV.Driver.Util
-/- svdriver_c04: line protocol for the C04 model (stub until the model is built). -/
+import SV.Model.Hostile
+/-
+svdriver_c04: line protocol for the C04 model (SV.Model.Hostile).
+
+  footer <gz|legacy|ext> <len> <none|hex extra|->   -> ok <payload> <tocOffset> <tocSize> | err | panic
+  footer zstd <len> <hex bytes|->                   -> (same)
+  open <size> <optTocOff> <fSize>,<e|off:size>,<t1>,<t2> ...
+                                                    -> <R<off>+<len>|T<n>|Tnil,...|-> <ok|err|panic>
+  rd <lenP> <off> <co>:<cs>:<n> ...                 -> <C<off>|A<len>@<off>,...|-> <ok <n>|err|panic>
+  pt <mergeBufferSize> <workers> <co>:<cs> ...      -> <sorted A<len>@<off>,...|-> <ok|err|panic>
+  tree <hexname>:<type>:<hexlink> ...               -> err | panic | ok <hexparent>/<hexbase>><hextarget>:<type>,...
+-/
 namespace SV.Driver.C04
+open SV.Driver SV.Hostile
+
+def showFooter : Outcome Footer → String
+  | .ok f => s!"ok {f.payload} {f.tocOffset} {f.tocSize}"
+  | .err => "err"
+  | .panic => "panic"
+
+def parseHdr? (s : String) : Option (Option (List UInt8)) :=
+  if s = "none" then some none else (unhex? s).map some
+
+def join (xs : List String) : String := if xs.isEmpty then "-" else ",".intercalate xs
+
+def parseDec? (s : String) : Option Dec :=
+  match s.splitOn "," with
+  | [fs, pf, t1, t2] => do
+    let fs ← parseInt? fs
+    let pf ← if pf = "e" then some none else
+      match pf.splitOn ":" with
+      | [a, b] => do
+        let a ← parseInt? a
+        let b ← parseInt? b
+        some (some (a, b))
+      | _ => none
+    if (t1 ≠ "0" ∧ t1 ≠ "1") ∨ (t2 ≠ "0" ∧ t2 ≠ "1") then none else
+    some ⟨fs, pf, t1 = "1", t2 = "1"⟩
+  | _ => none
+
+def showEv : Ev → Option String
+  | .read o l => some s!"R{o}+{l}"
+  | .alloc _ => none
+  | .toc none => some "Tnil"
+  | .toc (some n) => some s!"T{n}"
+
+def parseChunk? (s : String) : Option Chunk :=
+  match s.splitOn ":" with
+  | [a, b, c] => do
+    let a ← parseInt? a
+    let b ← parseInt? b
+    let c ← parseInt? c
+    some ⟨a, b, c, -1⟩
+  | [a, b, c, h] => do
+    let a ← parseInt? a
+    let b ← parseInt? b
+    let c ← parseInt? c
+    let h ← parseInt? h
+    some ⟨a, b, c, h⟩
+  | _ => none
+
+def showREv (withC : Bool) : REv → Option String
+  | .chunkAt o => if withC then some s!"C{o}" else none
+  | .storeRead l o => some s!"A{l}@{o}"
+  | .grow _ => none
+
+def parsePair? (s : String) : Option (Int × Int) :=
+  match s.splitOn ":" with
+  | [a, b] => do
+    let a ← parseInt? a
+    let b ← parseInt? b
+    some (a, b)
+  | _ => none
+
+def insertStr (s : String) : List String → List String
+  | [] => [s]
+  | x :: xs => if s < x then s :: x :: xs else x :: insertStr s xs
+
+def sortStrs (xs : List String) : List String := xs.foldr insertStr []
+
+def parseType? : String → Option EType
+  | "dir" => some .dir
+  | "reg" => some .reg
+  | "symlink" => some .symlink
+  | "hardlink" => some .hardlink
+  | "chunk" => some .chunk
+  | "other" => some .other
+  | _ => none
+
+def showType : EType → String
+  | .dir => "dir" | .reg => "reg" | .symlink => "symlink" | .hardlink => "hardlink"
+  | .chunk => "chunk" | .other => "other"
+
+/-- "a/b/c" → ["c","b","a"]; "" → []. The harness only sends clean names. -/
+def parseName (s : String) : Name := if s = "" then [] else (s.splitOn "/").reverse
+
+def showName (n : Name) : String := hexStr ("/".intercalate n.reverse)
+
+def parseEnt? (s : String) : Option Ent :=
+  match s.splitOn ":" with
+  | [n, t, l] => do
+    let n ← unhexStr? n
+    let t ← parseType? t
+    let l ← unhexStr? l
+    some ⟨parseName n, t, parseName l⟩
+  | _ => none
+
+/-- Edges of the nodes reachable from the root (what a walk of the real tree can see). -/
+def reachable (edges : List Edge) : Nat → List Name → List Name → List Name
+  | 0, _, seen => seen
+  | fuel + 1, frontier, seen =>
+    match frontier with
+    | [] => seen
+    | n :: rest =>
+      if seen.contains n then reachable edges fuel rest seen else
+      let kids := (edges.filter (fun e => e.parent = n)).map (·.target)
+      reachable edges fuel (rest ++ kids) (n :: seen)
+
+def showTree (t : Tree) : String :=
+  let seen := reachable t.edges (2 * t.edges.length + 2) [[]] []
+  let es := t.edges.filter (fun e => seen.contains e.parent)
+  "ok " ++ join (sortStrs (es.map fun e => s!"{showName e.parent}/{hexStr e.base}>{showName e.target}:{showType e.ttype}"))
 
 def step (s : Unit) : List String → Unit × String
+  | ["footer", kind, len, arg] =>
+    match parseNat? len with
+    | none => (s, "bad-op")
+    | some len =>
+      if kind = "zstd" then
+        match unhex? arg with
+        | some p => if p.length ≠ len then (s, "bad-op") else (s, showFooter (zstdFooter p))
+        | none => (s, "bad-op")
+      else
+        match parseHdr? arg with
+        | none => (s, "bad-op")
+        | some hdr =>
+          if kind = "gz" then (s, showFooter (gzipFooter len hdr))
+          else if kind = "legacy" then (s, showFooter (legacyFooter len hdr))
+          else if kind = "ext" then (s, showFooter (extFooter len hdr))
+          else (s, "bad-op")
+  | "open" :: size :: opt :: decs =>
+    match parseInt? size, parseInt? opt, decs.mapM parseDec? with
+    | some size, some opt, some ds =>
+      let (evs, out) := openBlob size opt ds
+      match out with
+      | .ok _ => (s, s!"{join (evs.filterMap showEv)} ok")
+      | .err => (s, s!"{join (evs.filterMap showEv)} err")
+      | .panic => (s, "panic")
+    | _, _, _ => (s, "bad-op")
+  | "rd" :: lenP :: off :: steps =>
+    match parseInt? lenP, parseInt? off, steps.mapM parseChunk? with
+    | some lenP, some off, some script =>
+      let (evs, out) := fileReadAt allocBound lenP off script
+      match out with
+      | .ok n => (s, s!"{join (evs.filterMap (showREv true))} ok {n}")
+      | .err => (s, s!"{join (evs.filterMap (showREv true))} err")
+      | .panic => (s, "panic")
+    | _, _, _ => (s, "bad-op")
+  | "pt" :: b :: w :: steps =>
+    match parseInt? b, parseInt? w, steps.mapM parsePair? with
+    | some b, some w, some script =>
+      if b ≤ 0 ∨ w ≤ 0 then (s, "bad-op") else
+      let (evs, out) := passthrough b script
+      match out with
+      | .ok _ => (s, s!"{join (sortStrs (evs.filterMap (showREv false)))} ok")
+      | .err => (s, s!"{join (sortStrs (evs.filterMap (showREv false)))} err")
+      | .panic => (s, "panic")
+    | _, _, _ => (s, "bad-op")
+  | "tree" :: ents =>
+    match ents.mapM parseEnt? with
+    | some es =>
+      match initTree es with
+      | .ok t => (s, showTree t)
+      | .err => (s, "err")
+      | .panic => (s, "panic")
+    | none => (s, "bad-op")
   | _ => (s, "bad-op")
 
 end SV.Driver.C04
